@@ -22,7 +22,7 @@ fn esc(s: &str) -> String {
     o
 }
 fn opt_hex(o: Option<&[u8]>) -> String { match o { Some(b) => format!(":{}", hex(b)), None => "-".into() } }
-fn ver(v: TlsVersion) -> String { match v { TlsVersion::Unknown(c) => format!("{}:{:04x}", v, c), v => format!("{}", v) } }
+fn ver(v: TlsVersion) -> String { match v { TlsVersion::Unknown(c) if v.to_string() == "00" => format!("00:{:04x}", c), v => format!("{}", v) } }
 
 fn sig_token(s: &Signature) -> String {
     let a = s.generate_ja4();
